@@ -182,6 +182,33 @@ def _one_string(part, text):
             part.count("malformed_cases")
 
 
+SUFFIX_LETTERS = "pxinmctQq%"
+SUFFIX_NUMERALS = ["5", "1.5", "-.5e1", "210", "0"]
+
+
+def _suffix_chunk(args):
+    """Numeral + every string of 1..max_len letters drawn from the supported units' own
+    letters: exactly the nine supported suffixes are lengths, every other one (doubled,
+    truncated, transposed or concatenated unit names such as 'mmm', '%%', 'pxpx', 'iin') is
+    an unsupported unit and must give None everywhere."""
+    firsts, max_len = args
+    part = core.Part()
+    for first in firsts:
+        for length in range(1, max_len + 1):
+            for rest in itertools.product(SUFFIX_LETTERS, repeat=length - 1):
+                suffix = first + "".join(rest)
+                if suffix in UNITS:
+                    continue
+                for numeral in SUFFIX_NUMERALS:
+                    text = numeral + suffix
+                    for clause, msg in check_malformed(text):
+                        part.violation(f"{clause}:suffix:{suffix}:{numeral}", msg,
+                                       {"kind": "malformed", "text": text})
+                    part.count("malformed_cases")
+                    part.count("unit_letter_suffix_cases")
+    return part
+
+
 def run(ctx):
     max_len = ctx.pick(5, 6)
     prefixes = ["".join(p) for p in itertools.product(ALPHA, repeat=2)]
@@ -189,6 +216,8 @@ def run(ctx):
     part = core.fan_out(ctx, _chunk, jobs)
     for text in list(ALPHA):
         _one_string(part, text)
+    part.merge(core.fan_out(ctx, _suffix_chunk,
+                            [([letter], ctx.pick(4, 5)) for letter in SUFFIX_LETTERS]))
     seeded = [str(abs(v)) + "." + str(abs(v) % 1000) for v in
               core.seeded_ints(ctx.seed, "c12.num", 4, 24)]
     for text in EXTRA_NUMERALS + seeded:
@@ -211,11 +240,14 @@ def run(ctx):
         "rule": f"all strings of length 1..{max_len} over '{ALPHA}': numerals (SVG number grammar) "
                 "x 10 unit suffixes x 5 whitespace placements through the parser, both "
                 "converters and both attribute readers; non-numerals x units and numerals x 12 "
-                "unsupported suffixes must give None; non-trivial = numeral x unit with a "
+                "unsupported suffixes must give None; 5 numerals x every string of 1..4 (5) letters "
+                "drawn from the unit names' own letters 'pxinmctQq%' other than the nine "
+                "units must give None (doubled/transposed/concatenated units); non-trivial = numeral x unit with a "
                 "conversion factor other than 1",
         "samples": core.rotate(part.samples, ctx.seed, 4),
         "valid_cases": cnt.get("valid_cases", 0),
         "malformed_cases": cnt.get("malformed_cases", 0),
+        "unit_letter_suffix_cases": cnt.get("unit_letter_suffix_cases", 0),
         "exhaustive": True,
     }
     assumptions = ["96 px per inch; factors in/mm/cm/pt/pc/Q from SVG/CSS as exact rationals",
